@@ -50,11 +50,11 @@ def one(spec, batch, stats, lang=False):
             try:
                 with time_limit(5):
                     g = extract_grammar(b.considered, b.start, expansion_depthing=mode)
-                evs.append({"e": "analysis", "exc": "", "impl": impl_grammar(g)})
+                evs.append({"e": "analysis", "exc": "", "mode": mode, "impl": impl_grammar(g)})
                 if not mode:
                     g0 = g
             except Exception as e:
-                evs.append({"e": "analysis", "exc": exc_name(e), "impl": {"expd": mode}})
+                evs.append({"e": "analysis", "exc": exc_name(e), "mode": mode, "impl": {"expd": mode}})
         if g0 is not None:
             try:
                 with time_limit(5):
